@@ -512,7 +512,7 @@ def run(tier, seed):
             if "names" not in r:
                 break
             name_of = {f["Stamp"]: nm for f, nm in zip(files, r["names"])}
-            left = set(r["left"])
+            left = set(r["left"] or [])
             kept = "".join("t" if name_of[f["Stamp"]] in left else "f" for f in srt)
             if m == kept and all(o in left for o in other):
                 break
@@ -637,7 +637,7 @@ def replay(path):
             r = impl.call("logGC", **a)
             srt = gc_sorted(a["Files"])
             name_of = {f["Stamp"]: nm for f, nm in zip(a["Files"], r["names"])}
-            kept = "".join("t" if name_of[f["Stamp"]] in set(r["left"]) else "f" for f in srt)
+            kept = "".join("t" if name_of[f["Stamp"]] in set(r["left"] or []) else "f" for f in srt)
             o = model.ask("C16 oracle-gc %d %s %s" % (a["Bound"], ",".join(str(f["Size"]) for f in srt), kept))
             print("gc bound %d kept %s: %s" % (a["Bound"], kept, o))
             bad += o != "ok"
